@@ -280,6 +280,20 @@ func RunHelpCase(d *Def, n int) (res Res) {
 			} else {
 				texts = append(texts, "sections: "+name+body)
 			}
+			// any list of sections gives the concatenation of the single sections, in the order asked for
+			secs := []getoptions.HelpSection{getoptions.HelpOptionList, getoptions.HelpSynopsis, getoptions.HelpCommandList, getoptions.HelpName}
+			for rot := 0; rot < 2; rot++ {
+				order := append(append([]getoptions.HelpSection{}, secs[rot:]...), secs[:rot]...)
+				want := ""
+				for _, sc := range order {
+					want += g.Help(sc)
+				}
+				if got := g.Help(order...); got == want {
+					texts = append(texts, texts[0])
+				} else {
+					texts = append(texts, "sections in another order: "+got)
+				}
+			}
 		}
 		b.Cleanup()
 	}
